@@ -148,7 +148,7 @@ def build_weechess(profile="release"):
     """the real CLI binary for process-level checks, never into /repo/target"""
     env = dict(ENV, CARGO_TARGET_DIR=os.path.join(BUILD, "target-cli"),
                RUSTFLAGS="--cfg weechess_verif")
-    cmd = ["cargo", "build", "--offline", "-p", "weechess"] + (["--release"] if profile == "release" else [])
+    cmd = ["cargo", "build", "--offline", "-p", "weechess_cli"] + (["--release"] if profile == "release" else [])
     rc, out, err = run(cmd, cwd="/repo", timeout=3600, env=env)
     if rc != 0:
         return None, (out + err)[-3000:]
